@@ -58,6 +58,8 @@ def relational_for(prop, ctx, lane):
     if prop in ("C13", "ALL"):
         OR.check_history_independence(ctx, lane)
         OR.check_order_independence(ctx, lane)
+        if ctx.plan["run"] % 3 == 0:
+            OR.check_interleaved_manager(ctx, lane)
     if prop in ("C05", "ALL") and ctx.plan["config"]["task"] == "tracking":
         OR.check_rename_twin(ctx, lane)
         OR.check_identity_fault_twins(ctx, lane)
